@@ -62,6 +62,24 @@ CHECKS = {
                 "checked by TLC; all texts of length 14..15 (17 thorough) over {a, space, '.'} for SplitLen 13/14 go through splitMessage with every suspicious result decided by TLC.",
         "note": MC_NOTE + " The small-text sweep uses a transliterated SplitOK as pre-filter; only its failures and a sample of passes reach TLC.",
     },
+    "C03": {
+        "engine": "Phases.tla", "level": "model_checking", "design_ref": "7 (C03)",
+        "technique": "TLA+ model of the event loop phases (internal, background spawn, foreground, CONNECTED inside 001, disconnect at any moment, handler outcomes return/panic/block); TLC exhaustive safety + liveness, three defect variants must fail; the same predicates evaluated by TLC on handler events recorded from the real client (trace validation)",
+        "text": "Phases.tla proves, for all interleavings with up to 4 lines, 2 foreground and 2 background handlers and a disconnect at any moment, that foreground handlers of different lines never overlap, start in wire order, CONNECTED runs after 001 was applied and before later lines, DISCONNECTED only after every foreground invocation ended. PhasesTrace.tla evaluates exactly these predicates on enter/exit events recorded inside real handlers over randomly segmented streams.",
+        "note": MC_NOTE + " The recorded executions sample real schedules (GOMAXPROCS 1..16, lingering handlers, a delayed internal phase); they are not enumerated.",
+    },
+    "C05": {
+        "engine": "Phases.tla", "level": "model_checking", "design_ref": "7 (C05)",
+        "technique": "TLA+ model of the event loop phases (internal, background spawn, foreground, CONNECTED inside 001, disconnect at any moment, handler outcomes return/panic/block); TLC exhaustive safety + liveness, three defect variants must fail; the same predicates evaluated by TLC on handler events recorded from the real client (trace validation)",
+        "text": "Every test line carries a monotone tracker witness (false until the line has been applied, true ever after). Inside every user foreground and background handler the witness of the handler's own line and of the next line is sampled; TLC checks AppliedBeforeHandlers (fg: exactly line k, bg: at least line k) on every recorded event, with the internal phase delayed by a hook so that a too-early handler is caught deterministically. The design-level model proves the same predicate and fails when the background dispatch is spawned before the internal phase.",
+        "note": MC_NOTE + " The recorded executions sample real schedules (GOMAXPROCS 1..16, lingering handlers, a delayed internal phase); they are not enumerated.",
+    },
+    "C16": {
+        "engine": "Phases.tla", "level": "model_checking", "design_ref": "7 (C16)",
+        "technique": "TLA+ model of the event loop phases (internal, background spawn, foreground, CONNECTED inside 001, disconnect at any moment, handler outcomes return/panic/block); TLC exhaustive safety + liveness, three defect variants must fail; the same predicates evaluated by TLC on handler events recorded from the real client (trace validation)",
+        "text": "Handlers of every kind (user foreground, user background, built-in via a bare PING) panic or block for ever at random; TLC checks on the recorded events that every panic reached the recovery function, that every foreground handler still ran exactly once for every later line, and the design model proves delivery of all lines (liveness) with blocked background handlers. A dying client process is a violation.",
+        "note": MC_NOTE + " The recorded executions sample real schedules (GOMAXPROCS 1..16, lingering handlers, a delayed internal phase); they are not enumerated.",
+    },
     "C12": {
         "engine": "Tracker.tla", "level": "model_checking", "design_ref": "7 (C12), 4.4",
         "technique": "TLA+ relational model; TLC closure of reachable states; every state-graph edge replayed on the real tracker + TLC trace validation of recorded random histories",
